@@ -7,7 +7,7 @@
 (*     (accepted iff the target is free and the element counts agree),     *)
 (*     then prediction under each of the five accumulations and, for       *)
 (*     additive accumulation, the parameter gradients.                     *)
-(*  Mode = "loop": a base network, one Loopback(b, a, k, inskips), each of *)
+(*  Mode = "loop": a base network, Loopback(b, a, k, inskips) calls, each of*)
 (*     the five accumulations; Overwrite must equal the unrolled network.  *)
 (*  Mode = "fb":   a feedback block (flat or spatial, alone / after a      *)
 (*     layer / before a dense layer) for every loop count, skip-flag       *)
@@ -122,11 +122,13 @@ Connect(a, b) ==
   /\ UNCHANGED <<phase, cfgv>>
 
 \* Loopback(b, a, k, inskips): feed the output of layer b back into layer a for k iterations.
+\* Up to MaxConnects loop connections per network, over pairwise disjoint ranges (declared in any order).
 Loopback(a, b, k, isk) ==
-  /\ Mode = "loop" /\ phase = "build" /\ hist = <<>>
+  /\ Mode = "loop" /\ phase = "build" /\ Len(hist) < MaxConnects
   /\ a <= b /\ net.layers[a].in = net.layers[b].out
-  /\ hist' = <<[op |-> "loopback", outof |-> b, into |-> a, iterations |-> k, inskips |-> isk, outcome |-> "ok"]>>
-  /\ net' = [net EXCEPT !.loops = {[outof |-> b, into |-> a, iterations |-> k, inskips |-> isk]}]
+  /\ \A lp \in net.loops : b < lp.into \/ lp.outof < a
+  /\ hist' = Append(hist, [op |-> "loopback", outof |-> b, into |-> a, iterations |-> k, inskips |-> isk, outcome |-> "ok"])
+  /\ net' = [net EXCEPT !.loops = @ \cup {[outof |-> b, into |-> a, iterations |-> k, inskips |-> isk]}]
   /\ UNCHANGED <<phase, cfgv>>
 
 Finish ==
@@ -155,7 +157,7 @@ Unrolled(n, lp) ==
   IN [n EXCEPT !.loops = {},
                !.layers = SubSeq(n.layers, 1, lp.into - 1) \o Times(lp.iterations + 1) \o SubSeq(n.layers, lp.outof + 1, Len(n.layers))]
 OverwriteIsUnrolled ==
-  (Mode = "loop" /\ phase = "done") =>
+  (Mode = "loop" /\ phase = "done" /\ Cardinality(net.loops) = 1) =>
     \A lp \in net.loops : ~lp.inskips =>
       \A seed \in DataSeeds :
         Predict([net EXCEPT !.loopacc = "overwrite"], InputOf(net, seed)) = Predict(Unrolled(net, lp), InputOf(net, seed))
